@@ -5,3 +5,5 @@ import ZckModel.Gen.Consts
 import ZckModel.Proto
 import ZckModel.Compint
 import ZckModel.Pred.C20
+import ZckModel.Range
+import ZckModel.Pred.C10
